@@ -20,7 +20,7 @@ RULE = ("case = one batch of (bytes, seed) inputs of one length class; every len
         "length >= 1 (tail or block code exercised); distinct = by input digest; steered batches: for every length 0..41 and some longer, "
         "every internal state position x 13 (8 for murmur3) special values, constructed by inverting the reference")
 ASSUMPTIONS = ["the references were written from the published FastHash/MurmurHash3 sources and validated against published Murmur3 vectors",
-               "lengths 0..257 (to 4096 in the thorough tier) stand for all lengths: the algorithms are block loops plus a tail switch"]
+               "lengths 0..257 exhaustively, ~40 lengths up to 65539 and four between 1 and 3 MiB stand for all lengths: the algorithms are block loops plus a tail switch"]
 LEVEL_TEXT = ("Differential run-time comparison of the three real hash functions with independent references on tens of "
               "thousands (quick) to millions (thorough) of hostile inputs covering every block/tail combination, plus purity "
               "observations (object provenance, call history, second process with another PYTHONHASHSEED).")
@@ -57,11 +57,13 @@ def gen_cases(ctx):
             # beyond the exhaustive 0..257 sweep: long keys (unrolled / vectorised block loops start somewhere)
             lengths += [258, 300, 511, 512, 513, 519, 520, 1000, 1023, 1024, 1025, 2048, 4095, 4096, 4097, 8191, 8200, 65536 + 3]
             lengths += [int(x) for x in rng.integers(258, 5000, 12)]
+            # beyond 1 MiB (windowed / threaded paths for very long keys start somewhere): block counts that are not multiples of 2^17
+            lengths += [2**20 + 8, 2**20 + 13, 2**21 + 40, 3 * 2**20 + 5]
         if ctx.thorough and rep % 4 == 3:
             lengths = [int(x) for x in rng.integers(258, 4097, 40)]
         for n in lengths:
             inputs = []
-            for j in range(12 if ctx.quick else 16):
+            for j in range((12 if ctx.quick else 16) if n < 2**20 else 3):
                 mode = int(rng.integers(0, 5)) if j > 4 else j % 5
                 b = rand_bytes(rng, n, mode)
                 s64 = SEEDS64[j % len(SEEDS64)] if j < 8 else int(rng.integers(0, 2**64, dtype=np.uint64))
